@@ -6,7 +6,7 @@ ID = 'C14'
 HARNESS_DIR = 'harness-sim'
 HARNESS_BIN = os.path.join(vlib.CACHE, 'target-sim', 'debug', 'dcsim')
 RULE = ('one case = one turmoil simulation of the real datacake-rpc client and server (feature `simulation`): 1-4 clients x 1-6 requests each (sequential and concurrently in flight, handler delays 0 / 5 / 300 / 2500 ms, '
-        'with a 2 s client timeout or none) under a seeded schedule of partition / hold / release / repair events placed before connection set-up, between requests, during handler runs and before replies; '
+        'with a 2 s client timeout or none; plus long outages: 35-60 requests on one channel through a partition lasting tens of seconds) under a seeded schedule of partition / hold / release / repair events placed before connection set-up, between requests, during handler runs and before replies; '
         'the observed event trace (send, handler begin/end, completion with outcome and simulated time) must be a run of the Lean protocol model RpcNet (trace inclusion = the correspondence; protocol_runs_satisfy_spec: every run => Spec) and is independently checked by the Lean monitor (monitor_sound: accepted => Spec): every completion is the reply computed for that very '
         'request or a connection/timeout error, no request is executed twice, no reply without a handler run, completion within timeout + 25 ms. The five scenarios of simulation-tests/tests/rpc.rs are in the schedule list. '
         'non-trivial = at least one fault event and at least one completed request; distinct by hash')
@@ -59,6 +59,13 @@ def generate(rng, tier):
         if tau == 0 and ('H' in faults or 'P' in faults):
             tau = rng.choice([2000, 500])      # without a client timeout a held or partitioned link pends for ever by design (turmoil never retransmits)
         cases.append(['case %d sim' % i, 'run %d %d %d %d %s' % (rng.below(1 << 31), clients, reqs, tau, faults), 'end'])
+    # long outages: one channel sees dozens of consecutive failed connection attempts (a partition from the start, or from the
+    # middle), then the link is repaired (or not) and more requests follow: every one of them must still end in a reply or an error
+    for k in range(dict(quick=4, thorough=200, search=20)[tier]):
+        reqs = rng.choice([35, 45, 60])
+        tau = rng.choice([300, 500])
+        faults = rng.choice(['0P0', '0P0,%dX0' % rng.choice([12000, 20000, 30000]), '%dP0,%dX0' % (rng.choice([400, 3000]), rng.choice([25000, 40000])), '0H0,%dL0' % rng.choice([15000, 30000])])
+        cases.append(['case %d sim' % (n + k), 'run %d 1 %d %d %s' % (rng.below(1 << 31), reqs, tau, faults), 'end'])
     return cases
 
 
